@@ -188,14 +188,20 @@ def run_case(case, ctx):
                     if X.magic2int(mg) not in listed:
                         ctx.violation("pre-release-name-magic:%s" % name, "magics[%r] is %d, CPython's registry lists %s for %d.%d%s" % (name, X.magic2int(mg), listed, qv[0], qv[1], tag))
             # a pre-release the tables name ("3.8.0a1", "3.12.0rc2"): sysinfo2magic of that interpreter's sys.version_info
-            pm = re.match(r"^(\d)\.(\d+)\.(\d+)(a|b|rc|c)(\d+)$", name)
+            pm = re.match(r"^(\d)\.(\d+)(?:\.(\d+))?(a|alpha|b|beta|rc|c|candidate)(\d+)$", name)
             if pm:
                 ctx.count("pre_release_names")
-                vi = (int(pm.group(1)), int(pm.group(2)), int(pm.group(3)), {"a": "alpha", "b": "beta", "rc": "candidate", "c": "candidate"}[pm.group(4)], int(pm.group(5)))
+                vi = (int(pm.group(1)), int(pm.group(2)), int(pm.group(3) or 0),
+                      {"a": "alpha", "alpha": "alpha", "b": "beta", "beta": "beta", "rc": "candidate", "c": "candidate", "candidate": "candidate"}[pm.group(4)], int(pm.group(5)))
                 try:
                     got = X.magic2int(X.sysinfo2magic(vi))
-                    if got != X.magic2int(mg):
-                        ctx.violation("sysinfo2magic-pre-release:%s" % name, "sysinfo2magic(%r) gives %d, the tables say %s writes %d" % (vi, got, name, X.magic2int(mg)))
+                    # the tables spell one pre-release in several ways ("3.9.0a2", "3.9.0alpha2") and the rows do not always agree:
+                    # any magic they give for this pre-release is accepted
+                    lv = {"alpha": ("a", "alpha"), "beta": ("b", "beta"), "candidate": ("rc", "c", "candidate")}[vi[3]]
+                    alts = set(X.magic2int(X.magics[n_]) for n_ in ["%s%s%d" % (pre, sp, vi[4]) for pre in ("%d.%d.%d" % vi[:3], "%d.%d" % vi[:2]) for sp in lv]
+                               if n_ in X.magics and (vi[2] == 0 or n_.startswith("%d.%d.%d" % vi[:3])))
+                    if got not in alts:
+                        ctx.violation("sysinfo2magic-pre-release:%s" % name, "sysinfo2magic(%r) gives %d, the tables say that pre-release writes %s" % (vi, got, sorted(alts)))
                 except Exception as e:
                     ctx.violation("sysinfo2magic-pre-release-raises:%s" % name, "sysinfo2magic(%r) raised %r" % (vi, e))
             mm = re.match(r"^(\d)\.(0|[1-9]\d*)(?:\.(\d+))?$", name)  # '3.000' is Python 3000, not a release
